@@ -384,7 +384,7 @@ def check(run):
                        "reuse, CREATE/DROP TABLE/INDEX, ALTER ADD COLUMN, drop-and-recreate with other columns (root page reuse), VACUUM (also with a new page size, also before the first "
                        "read); after every commit every table is read through Select twice (file, then caches), indexes through IndexedSelect, the table list, and the low level "
                        "RLock/Scan/RUnlock path; databases below and above the 100-page cache; through the in-memory pager (with the handle-state model of Model/DbState.v serving the "
-                       "pages of the extracted model) and through the real file pager. Oracle: SQLite's own view after each commit. non-trivial = distinct (history step, table) reads")
+                       "pages of the extracted model) and through the real file pager. Oracle: SQLite's own view after each commit. non-trivial = distinct (history step, table) reads The handle's first calls after every commit are point lookups / indexed selects on the table the commit touched; every round ends with all point lookups in a fixed order; the writer also drops columns, re-creates indexes under their names, updates single rows, thins leaves; payloads around the spill thresholds of every page size.")
     run.cov["distribution"] = dist
     run.sample({"history_plan": plans[0], "writes": dist["writes"]})
     run.assumptions += ["writers follow SQLite's change counter / schema cookie discipline (hypothesis 'protocol' of C08_coherent), validated here against SQLite 3.40.1",
